@@ -721,7 +721,19 @@ func genFail(t *rapid.T, T, B *gTbl, enum bool) failT {
 		}
 	case "cancel":
 		f.FK = "cancel"
-		switch fw.Range(t, "cancel_stmt", 0, 9) {
+		switch fw.Range(t, "cancel_stmt", 0, 11) {
+		case 10, 11:
+			// several targets: every cancellation point must come before the first target is stored
+			if len(common) > 0 && smallJoin {
+				f.SK, f.Refs = "delete_multi", both
+				where := fmt.Sprintf(" WHERE %s.id %% 2 = 0", ta)
+				if fw.Pct(t, "cancel_delete_all", 40) {
+					where = ""
+				}
+				f.SQL = fmt.Sprintf("DELETE %s, %s FROM %s JOIN %s ON %s.id = %s.id%s;", ta, tb, fromT, fromB, ta, tb, where)
+			} else {
+				f.SK, f.SQL = "delete", fmt.Sprintf("DELETE FROM %s WHERE %s.id > 0;", fromT, ta)
+			}
 		case 0:
 			f.SK, f.SQL = "update", fmt.Sprintf("UPDATE %s SET v = 'F';", T.Name)
 		case 1:
@@ -1489,6 +1501,10 @@ func checkOnce(c caseT, limit time.Duration) (fw.Outcome, *fw.Violation) {
 				fingerprint(nClass(n))
 			}
 		}
+		if c.Enum && completed {
+			fw.AddExtra("cancel_points:"+f.SK, int64(evals))
+			fw.AddExtra("cancel_enumerations:"+f.SK, 1)
+		}
 		if evals == 0 {
 			fw.AddExtra("unexpected_success:cancel", 1)
 			return fw.Outcome{Discard: true}, nil
@@ -1797,7 +1813,7 @@ func TestC08FailedStatement(t *testing.T) {
 	fw.Run(t, fw.Spec[caseT]{
 		ID: "C08", Name: "failed_statement", Quick: 5000, Thorough: 100000,
 		Gen: genCase, Check: checkCase,
-		Rule: "two tables t1/t2 (CSV file, temporary table or table created in the same transaction; 1-340 rows, ~25% of the cases with >=160 rows and cpu 2/4 so that worker goroutines evaluate), a prefix of 0-4 successful INSERT/UPDATE/DELETE/REPLACE/ALTER statements, then ONE statement engineered to fail: UPDATE/DELETE/INSERT..SELECT/REPLACE..SELECT/ALTER ADD DEFAULT/CREATE TABLE AS dividing by (id-K) with K the first/middle/last id, multi-table UPDATE that becomes ambiguous at row K, VALUES lists whose j-th row has the wrong length or fails, unknown fields, missing/duplicate columns, REPLACE key not set, CREATE TABLE over an existing file, a multi-table DELETE/UPDATE whose list of target names holds a name that is not an updatable table of the statement (unknown name, subquery alias, WITH table; before or after valid names), or a valid statement whose context is cancelled after N polls (several N per case). In 60% of the cases the statement names its tables through aliases (t1 a, t2 b, source x) that differ from the table names. Executed statement by statement on one in-process session; oracle: after data-neutral filler SELECTs, SELECT * AND the table-qualified SELECT t.c1, t.c2, ... of both tables and the plain files of the directory are the same before and after; then COMMIT - in 57% of the cases after a further INSERT and, on BOTH tables, an UPDATE and a DELETE of one row (plain and table-qualified names) whose affected counts and effects must match a row model - and a fresh session reads the modelled content from the files, whose bytes must be the modelled CSV text; or ROLLBACK returns to the initial content. Non-trivial = the failure strikes after >=1 row / row value / statement item was evaluated (K not first, j>0, N>1); distinct by (statement kind, failure kind, position class, table kind, size class, clean/dirty/cold)",
+		Rule: "two tables t1/t2 (CSV file, temporary table or table created in the same transaction; 1-340 rows, ~25% of the cases with >=160 rows and cpu 2/4 so that worker goroutines evaluate), a prefix of 0-4 successful INSERT/UPDATE/DELETE/REPLACE/ALTER statements, then ONE statement engineered to fail: UPDATE/DELETE/INSERT..SELECT/REPLACE..SELECT/ALTER ADD DEFAULT/CREATE TABLE AS dividing by (id-K) with K the first/middle/last id, multi-table UPDATE that becomes ambiguous at row K, VALUES lists whose j-th row has the wrong length or fails, unknown fields, missing/duplicate columns, REPLACE key not set, CREATE TABLE over an existing file, a multi-table DELETE/UPDATE whose list of target names holds a name that is not an updatable table of the statement (unknown name, subquery alias, WITH table; before or after valid names), or a valid statement (single-target UPDATE/DELETE/INSERT/REPLACE/ALTER/CREATE TABLE AS, two-target UPDATE a, b and DELETE a, b over a join) whose context is cancelled after N polls (several N per case). In 60% of the cases the statement names its tables through aliases (t1 a, t2 b, source x) that differ from the table names. Executed statement by statement on one in-process session; oracle: after data-neutral filler SELECTs, SELECT * AND the table-qualified SELECT t.c1, t.c2, ... of both tables and the plain files of the directory are the same before and after; then COMMIT - in 57% of the cases after a further INSERT and, on BOTH tables, an UPDATE and a DELETE of one row (plain and table-qualified names) whose affected counts and effects must match a row model - and a fresh session reads the modelled content from the files, whose bytes must be the modelled CSV text; or ROLLBACK returns to the initial content. Non-trivial = the failure strikes after >=1 row / row value / statement item was evaluated (K not first, j>0, N>1); distinct by (statement kind, failure kind, position class, table kind, size class, clean/dirty/cold)",
 		Assumptions: []string{
 			"tables are compared by column names, row order, cell text and NULL-ness (not by value type: a CSV round trip turns every value into text)",
 			"follow-up statements address single rows by id (ids are unique integers); the committed bytes are compared only when every cell is NULL or a word that needs no quoting (measured otherwise as bytes_not_checked:*)",
